@@ -331,13 +331,18 @@ def single_tip_dags(nmax):
     return [d for d in dw.connected_dags(nmax)]
 
 
-def file_items(nmax):
+def file_items(nmax, full_max=None):
+    """(dag, assignment): every assignment of STATES for dags <= full_max nodes; for larger dags the
+    assignments with at most one revision lacking the file."""
     out = []
+    full_max = nmax if full_max is None else full_max
     for dag in single_tip_dags(nmax):
         n = len(dag)
         for assign in itertools.product(STATES, repeat=n):
             if assign[-1] is None:
                 continue        # 'brz log FILE' needs the file at the end of the range
+            if n > full_max and sum(1 for a in assign if a is None) > 1:
+                continue
             out.append((dag, assign))
     return out
 
@@ -347,11 +352,12 @@ def run(ctx):
     M = ctx.q(4, 5)
     dags = single_tip_dags(N)
     acc = par.merge(par.pmap(_work_graph, dags, seed=ctx.seed, chunks_per_job=8))
-    fitems = file_items(M)
+    fitems = file_items(M, 4)
     acc2 = par.merge(par.pmap(_work_files, fitems, seed=ctx.seed, chunks_per_job=8))
     a1 = _work_graph(dags[:8])
     a2 = _work_graph(dags[:8])
-    if (a1.n, sorted(map(repr, a1.outcomes)), a1.violations) != (a2.n, sorted(map(repr, a2.outcomes)), a2.violations):
+    if (a1.n, sorted(map(repr, a1.outcomes)), sorted(x[0] for x in a1.violations)) != \
+            (a2.n, sorted(map(repr, a2.outcomes)), sorted(x[0] for x in a2.violations)):
         raise HarnessError("C25: two runs of the same histories differ")
     for a in (acc, acc2):
         best = {}
@@ -372,7 +378,7 @@ def run(ctx):
         "distinct_nontrivial": len(acc.nontrivial) + len(acc2.nontrivial),
         "rule": "non-trivial = history with more than two revisions (graph part); file history in which some revision changes the file (file part)",
         "distinct_outcomes": len(acc.outcomes | acc2.outcomes),
-        "max_dag_nodes": N, "max_dag_nodes_files": M,
+        "max_dag_nodes": N, "max_dag_nodes_files": M, "max_dag_nodes_files_all_assignments": min(M, 4),
         "violations_raw": acc.counters.get("violations_raw", 0) + acc2.counters.get("violations_raw", 0),
         "start_not_ancestor_but_listed": acc.counters.get("start_not_ancestor_listed", 0),
         "other_range_forward_differs_from_rbd_of_reverse": acc.counters.get("other_range_forward_differs_from_rbd_of_reverse", 0),
